@@ -171,9 +171,20 @@ def interleave(prog, run):
         run.ob("R-interleave", fi.qual, role, ok, detail, witness=detail[:90], file=f, node=node)
     # the two fancy-index reads Obs[ref_id, :] / Obs[mov_id, :]
     maps = []
+    cands = []
     for n in ast.walk(fi.node):
         if isinstance(n, ast.Assign) and isinstance(n.value, ast.Subscript) and len(astq.index_elts(n.value)) == 2 and astq.is_full_slice(astq.index_elts(n.value)[1]):
-            idx = astq.expr_at(fi, n, astq.index_elts(n.value)[0], keep=KEEP)
+            cands.append((n, astq.index_elts(n.value)[0], n.targets[0]))
+        elif isinstance(n, ast.Assign) and len(n.targets) == 1 and isinstance(n.targets[0], (ast.Tuple, ast.List)) and isinstance(n.value, ast.Call):
+            # O_ref, O_mov = helper(Obs, ...): the reads sit in the helper - take them from its inlined return
+            for k_, t_ in enumerate(n.targets[0].elts):
+                x_ = astq.expr_at(fi, n, ast.Subscript(value=n.value, slice=ast.Constant(value=k_), ctx=ast.Load()), keep=KEEP)
+                if isinstance(x_, ast.Subscript) and len(astq.index_elts(x_)) == 2 and astq.is_full_slice(astq.index_elts(x_)[1]) \
+                        and not isinstance(astq.index_elts(x_)[0], (ast.Slice, ast.Constant)):
+                    cands.append((n, astq.index_elts(x_)[0], t_))
+    for n, idx0, tgt_ in cands:
+        if True:
+            idx = astq.expr_at(fi, n, idx0, keep=KEEP)
             m = _index_map(prog, fi, se, idx)
             if m is None and not isinstance(idx, (ast.Slice, ast.Constant)):
                 try:
@@ -181,7 +192,7 @@ def interleave(prog, run):
                 except Exception:
                     m = None
             if m is not None:
-                m["target"] = n.targets[0].id if isinstance(n.targets[0], ast.Name) else None
+                m["target"] = tgt_.id if isinstance(tgt_, ast.Name) else None
                 m["stmt"] = n
                 maps.append(m)
     if len(maps) != 2:
@@ -207,6 +218,8 @@ def interleave(prog, run):
         ob(f"{nm} map: stride = channels of this setup (n_ref + n_mov[k])", okw, f"stride {m['W']!r}", m["node"])
     ob("reference channels = [0, n_ref)", refm["a"] == P.c(0) and refm["b"] == P.s("n_ref"), f"range({refm['a']!r}, {refm['b']!r})", refm["node"])
     okm = movm["a"] == refm["b"] and (movm["b"] == r_sym or "shape[0]" in repr(movm["b"]))
+    if not okm and movm["a"] == refm["b"] and ("shp" in repr(movm["b"]) or "floor" in repr(movm["b"])):
+        okm = None      # the upper end is an extent this rule cannot relate to the channel count of the setup: not recognised
     ob("roving channels = [n_ref, r): the two maps partition the channels", okm, f"range({movm['a']!r}, {movm['b']!r})", movm["node"])
     # re-basing
     apps = [n for n in ast.walk(fi.node) if isinstance(n, ast.Call) and isinstance(n.func, ast.Attribute) and n.func.attr == "append" and len(n.args) == 1]
